@@ -6,7 +6,7 @@
     [labrea.cache.disabled()]); all theorems hold for ALL user code [u], ALL resolution budgets
     [fuel], ALL well-formed dictionaries (unique keys per section) and ALL expressions of the
     boolean fragment [frag] (Proofs/FrameProofs.v: every constructor except Map, Template nodes,
-    AllOptions, non-empty pre-set dictionaries and effects — those are covered by
+    AllOptions and non-empty pre-set dictionaries — those are covered by
     the correspondence + oracle of harness/props/c03.py only).
 
     [clean_at u fuel e o] is the computed side condition (Model/EvalRun.v): every option the
@@ -36,6 +36,7 @@ Print Assumptions C03_keys_present_only.
 Theorem C03_keys_sufficient : forall u fuel e o K lk,
   frag e = true -> wf_dict o = true -> clean_at u fuel e o = true ->
   keysN u fuel e o tt = (Ok K, tt, lk) ->
+  effects_opt_off (restrict o K) = effects_opt_off o ->
   obs (evalN u fuel e (restrict o K) tt) = obs (evalN u fuel e o tt) /\
   obs (keysN u fuel e (restrict o K) tt) = obs (keysN u fuel e o tt).
 Proof. exact keys_sufficient_clean. Qed.
@@ -46,13 +47,14 @@ Print Assumptions C03_keys_sufficient.
     other key changes nothing. *)
 Theorem C03_frame : forall u fuel e o o',
   frag e = true -> wf_dict o = true -> wf_dict o' = true ->
+  effects_opt_off o' = effects_opt_off o ->
   (agree_keys o o' (reads_of (snd (evalN u fuel e o tt))) ->
      obs (evalN u fuel e o' tt) = obs (evalN u fuel e o tt)) /\
   (agree_keys o o' (reads_of (snd (validateN u fuel e o tt))) ->
      obs (validateN u fuel e o' tt) = obs (validateN u fuel e o tt)) /\
   (agree_keys o o' (reads_of (snd (keysN u fuel e o tt))) ->
      obs (keysN u fuel e o' tt) = obs (keysN u fuel e o tt)).
-Proof. intros u fuel e o o' Hf Hw Hw'. exact (frame_all u fuel e Hf o o' Hw Hw'). Qed.
+Proof. intros u fuel e o o' Hf Hw Hw' Hsw. exact (frame_all u fuel e Hf o o' Hw Hw' Hsw). Qed.
 Print Assumptions C03_frame.
 
 (** The fingerprint is a function of the reported keys and their values alone: identical for
